@@ -161,10 +161,7 @@ class C16(core.Check):
             bl = bodies(3 if self.tier == "thorough" else 2)
             self._cases = [{"route": r, "iface": i, "body": list(b), "final": f}
                            for r in ROUTES for i in range(len(INTERFACES)) for b in bl for f in range(len(FINALS))
-                           if not (r in ("argparse", "class_call_to_method") and i > 0)
-                           # a documented returned default with a body that returns nothing is emitted as a return
-                           # statement by design; the property is about bodies that have their own final return
-                           and not (INTERFACES[i][0] == "returns_default_clause" and f == 0)]
+                           if not (r in ("argparse", "class_call_to_method") and i > 0)]
         return _Space(self._cases)
 
     def run_case(self, case):
@@ -206,6 +203,11 @@ class C16(core.Check):
         except Exception as e:
             return [site(False, dict(base, field="convert"), fail="raise", **core.exc_obs(e))], (src, route) if labels else None, [src, "raise"]
         b, a = dumps(before), dumps(after)
+        if (INTERFACES[iface][0] == "returns_default_clause" and case["final"] == 0 and route != "argparse" and len(a) == len(b) + 1
+                and a[:-1] == b and isinstance(after[-1], ast.Return)):
+            # a documented returned default whose body has no final return of its own is emitted as one more return
+            # statement by design; every statement of the body itself must still be there, in order
+            a = a[:-1]
         sites = [site(True, dict(base, field="convert"))]
         if b == a:
             sites.append(site(True, dict(base, field="body")))
